@@ -220,6 +220,9 @@ def c16(pid, tier, seed):
             MsgShapes=("tab", "tt", "a"), Tpls=("TM", "KM", "PM"), TabWs=(8, 0, 4), Fins=("AndLeave",)),
         fam("tabs_restyle", W=40, H=6, D=4 if q else 5, BarOps=("set_tab_width", "restyle", "set_style", "set_message", "tick"),
             MsgShapes=("tab",), Tpls=("TM", "KC", "M"), TabWs=(8, 2), Fins=("AndLeave",)),
+        # the texts given to the builder before / after the tab width (with_message, with_prefix, with_tab_width, with_style in every order)
+        fam("tabs_builder", W=40, H=6, D=3 if q else 4, BarOps=("tick", "set_tab_width", "set_message", "finish_with_message"), MsgShapes=("tab",), Tpls=("PM", "TM"),
+            TabWs=(8, 0, 1, 4), Fins=("AndLeave", "WithMessage"), M0="tab"),
         fam("tabs_multi", W=40, H=12, Multi=True, MaxBars=2, D=4 if q else 5, BarOps=("set_tab_width", "set_style", "set_message", "abandon_with_message", "tick"),
             MsgShapes=("tab",), Tpls=("TM", "KM"), TabWs=(8, 1), Fins=("AndLeave",), shards=12),
     ]
@@ -288,6 +291,9 @@ def c18(pid, tier, seed):
         # bottom alignment: the filler lines written when the region shrinks are terminal operations like any other
         fam("faults_multi_bottom", W=6, H=8, Multi=True, MaxBars=2, Pre=2, D=5 if q else 6, BarOps=("tick", "finish_and_clear", "mp_remove", "drop"),
             MpOps=("mp_println", "mp_clear"), TextShapes=("T",), Tpls=("M",), Fins=("AndClear",), Faults=(1, 2, 3, 4, 5, 6, 7, 8), M0="id", Align="bottom", shards=12),
+        # ... including the filler lines under a frame that has no bar line left (one bar whose frame wrapped to two rows, cleared)
+        fam("faults_bottom_wrapped", W=6, H=8, Multi=True, MaxBars=1, Pre=1, D=6 if q else 7, BarOps=("tick", "finish_and_clear", "drop"),
+            MpOps=("mp_println", "mp_clear"), TextShapes=("T",), Tpls=("M",), Fins=("AndClear",), Faults=(1, 2, 3, 4, 5, 6, 7, 8, 9, 10), M0="idw", Align="bottom", shards=12),
         fam("faults_multi_zombies", W=6, H=8, Multi=True, MaxBars=2, Pre=2, Once=True, D=6 if q else 7, BarOps=("println", "finish", "drop"),
             MpOps=("mp_println", "mp_clear"), TextShapes=("T",), Tpls=("M",), Fins=("AndLeave",), Faults=(1, 2, 4), M0="id", shards=12),
     ]
